@@ -10,6 +10,13 @@ NOTE = ("Trusted: Lean 4.33 kernel; axioms propext/Classical.choice/Quot.sound o
         "-O2 build (thorough: also -O0 and -march=native, all alignments). Constants and README tables are regenerated from "
         "/repo on every run (tools/gen.py). Clauses not yet carried by a theorem are listed in the evidence under not_yet_proved.")
 CLAIMED = {
+ "C18": ("Theorems for the bitmap object under EVERY refusal pattern (any subset of its allocation requests, over any "
+         "history): Add/Remove are atomic (applied and reported, or the set is untouched and false returned), the C08 invariant "
+         "survives, set operations return NULL or exactly the union with all iterated members, Create/Clone return NULL or the "
+         "object; with no refusal the oracle model equals the C08 model. Every allocating API is swept on the implementation: "
+         "each of its N requests refused in turn, outcome/leak/usability checked and compared with the model's prediction. "
+         "Known finding D35 (void bitmap APIs cannot report) is reported as KNOWN-FINDING",
+         "Lean 4 proof (bitmap object under any refusal oracle) + exhaustive k-th-allocation-failure sweep compared with the model (partial: crashes/leaks are observed, not proved)"),
  "C14": ("Theorems, for EVERY byte list: the bounded tagged reader, both dictionary decoders, both Elias array decoders, the "
          "bitmap deserialiser and the RLE run counter never load at or beyond the declared size (memory-safety semantics: such "
          "a load is the distinguished outcome `fault`, proved unreachable), every malloc request is bounded by a constant or "
